@@ -127,6 +127,12 @@ func (cr *ChunkReader) Read(p []byte) (int, error) {
 	if cr.checksumHash != nil {
 		cr.checksumHash.Write(p[:n])
 	}
+	if err == io.EOF {
+		// the body ended inside or right after chunk data: the only
+		// legitimate end of the stream is the zero-size final chunk, for
+		// which parseAndRemoveChunkInfo returns io.EOF after verifying it
+		return n, errInvalidChunkFormat
+	}
 	return n, err
 }
 
